@@ -274,6 +274,52 @@ def run_exh(case):
     return {"viol": out, "stats": stats, "nontrivial": nontriv, "evaluations": ev}
 
 
+def gen_ladder(rng):
+    """chain + shortcut merges over chain nodes + a final merge: the shape on which a time-ordered common-ancestor walk yields several
+    candidates lying on one chain (needs >= 7 commits and a clock that runs backwards somewhere to matter)."""
+    L = rng.randrange(3, 8)
+    parents = [()] + [(i - 1,) for i in range(1, L)]
+    for _ in range(rng.randrange(1, 4)):
+        k = rng.choice([2, 2, 3])
+        parents.append(tuple(sorted(rng.sample(range(len(parents)), min(k, len(parents))), reverse=True)))
+    parents.append((L - 1,))
+    n = len(parents)
+    parents.append(tuple(sorted(rng.sample(range(L, n), min(2, n - L)), reverse=True)))
+    if rng.random() < 0.3:
+        parents.append(tuple(sorted(rng.sample(range(len(parents)), 2), reverse=True)))
+    return parents
+
+
+def run_ladder(case):
+    """many small ladder DAGs x fully permuted (or tied) clocks, all pair queries."""
+    rng = random.Random(case["seed"])
+    viol, stats, nontriv = [], {}, set()
+    for _ in range(case["count"]):
+        parents = gen_ladder(rng)
+        n = len(parents)
+        times = [1000000 + 100 * i for i in range(n)]
+        mode = rng.choice(["perm", "perm", "perm", "perm-ties", "reversed"])
+        if mode == "perm":
+            rng.shuffle(times)
+        elif mode == "perm-ties":
+            times = [1000000 + 100 * rng.randrange(max(2, n // 2)) for _ in range(n)]
+        else:
+            times.reverse()
+        anc = anc_sets(parents)
+        cls = clock_class(parents, times)
+        repo, ids = build_memrepo(parents, times)
+        check_repo(repo, ids, parents, times, anc, cls, viol, stats, "pairs", rng)
+        stats["cases_" + cls] = stats.get("cases_" + cls, 0) + 1
+        stats["ladder_cases"] = stats.get("ladder_cases", 0) + 1
+        nontriv.add("ladder:%d:%s:%s" % (n, "".join(str(len(p)) for p in parents), cls))
+    seen, out = set(), []
+    for v in viol:
+        if v["sig"] not in seen:
+            seen.add(v["sig"])
+            out.append(v)
+    return {"viol": out, "stats": stats, "nontrivial": sorted(nontriv), "evaluations": case["count"]}
+
+
 def gen_random_dag(rng, n, style):
     parents = []
     for i in range(n):
@@ -421,6 +467,9 @@ def check_sampled(repo, ids, parents, times, anc, cls, viol, stats, rng, store=N
 _scratch = None
 
 
+NOGRAPH = ["-c", "core.commitGraph=false"]     # the reference must not read the acceleration file dulwich may have written
+
+
 def run_git(case):
     """Materialise the DAG with git fast-import; compare git's answers with the reference and with dulwich
     running on that on-disk repository (with and without a commit-graph)."""
@@ -472,26 +521,26 @@ def run_git(case):
         for _ in range(case.get("q", 12)):
             a, b = rng.randrange(n), rng.randrange(n)
             want = maximal(anc[a] & anc[b], anc)
-            r = core.git(["merge-base", "--all", ids[a].decode(), ids[b].decode()], cwd=d, check=False)
+            r = core.git(NOGRAPH + ["merge-base", "--all", ids[a].decode(), ids[b].decode()], cwd=d, check=False)
             g = sorted(idx[x] for x in r.stdout.split())
             stats["git_queries"] = stats.get("git_queries", 0) + 1
             if g != sorted(want):
                 V("C13/ORACLE-DISAGREES-WITH-GIT/merge-base", q=[a, b], git=g, ref=want)
-            r = core.git(["merge-base", "--is-ancestor", ids[a].decode(), ids[b].decode()], cwd=d, check=False)
+            r = core.git(NOGRAPH + ["merge-base", "--is-ancestor", ids[a].decode(), ids[b].decode()], cwd=d, check=False)
             if (r.returncode == 0) != bool((anc[b] >> a) & 1):
                 V("C13/ORACLE-DISAGREES-WITH-GIT/is-ancestor", q=[a, b])
         q = rng.sample(range(n), min(n, 3))
-        r = core.git(["merge-base", "--independent"] + [ids[x].decode() for x in q], cwd=d, check=False)
+        r = core.git(NOGRAPH + ["merge-base", "--independent"] + [ids[x].decode() for x in q], cwd=d, check=False)
         want = [x for x in q if not any(y != x and (anc[y] >> x) & 1 for y in q)]
         if sorted(idx[x] for x in r.stdout.split()) != sorted(want):
             V("C13/ORACLE-DISAGREES-WITH-GIT/independent", q=q)
-        r = core.git(["merge-base", "--octopus", "--all"] + [ids[x].decode() for x in q], cwd=d, check=False)
+        r = core.git(NOGRAPH + ["merge-base", "--octopus", "--all"] + [ids[x].decode() for x in q], cwd=d, check=False)
         m = anc[q[0]]
         for x in q[1:]:
             m &= anc[x]
         if sorted(idx[x] for x in r.stdout.split()) != sorted(maximal(m, anc)):
             V("C13/ORACLE-DISAGREES-WITH-GIT/octopus", q=q, git=sorted(idx[x] for x in r.stdout.split()), ref=maximal(m, anc))
-        r = core.git(["merge-base", "--all"] + [ids[x].decode() for x in q], cwd=d, check=False)
+        r = core.git(NOGRAPH + ["merge-base", "--all"] + [ids[x].decode() for x in q], cwd=d, check=False)
         if len(q) == 3 and sorted(idx[x] for x in r.stdout.split()) != sorted(maximal(anc[q[0]] & (anc[q[1]] | anc[q[2]]), anc)):
             V("C13/ORACLE-DISAGREES-WITH-GIT/merge-base-many", q=q)
         # rev-list
@@ -500,14 +549,14 @@ def run_git(case):
         reach = 0
         for i in inc:
             reach |= anc[i]
-        r = core.git(["rev-list", "--topo-order"] + [ids[i].decode() for i in inc] + ["^" + ids[exc[0]].decode()], cwd=d)
+        r = core.git(NOGRAPH + ["rev-list", "--topo-order"] + [ids[i].decode() for i in inc] + ["^" + ids[exc[0]].decode()], cwd=d)
         g = [idx[x] for x in r.stdout.split()]
         if sorted(g) != bits(reach & ~anc[exc[0]]):
             V("C13/ORACLE-DISAGREES-WITH-GIT/rev-list-exclude", inc=inc, exc=exc)
         stats["git_queries"] = stats.get("git_queries", 0) + 5
         if cls == "strict" and len(set(times)) == n:
             from dulwich.walk import Walker
-            r = core.git(["rev-list", "--date-order"] + [ids[i].decode() for i in inc], cwd=d)
+            r = core.git(NOGRAPH + ["rev-list", "--date-order"] + [ids[i].decode() for i in inc], cwd=d)
             g = [idx[x] for x in r.stdout.split()]
             got = [idx[e.commit.id] for e in repo.get_walker(include=[ids[i] for i in inc])]
             if got != g:
@@ -546,7 +595,7 @@ def worker_exit():
 
 
 def run_case(case):
-    return {"exh": run_exh, "random": run_random, "git": run_git, "single": run_single}[case["kind"]](case)
+    return {"exh": run_exh, "random": run_random, "git": run_git, "single": run_single, "ladder": run_ladder}[case["kind"]](case)
 
 
 def main(ctx):
@@ -574,13 +623,15 @@ def main(ctx):
     for i in range(ctx.budget(400, 6000)):
         cases.append({"kind": "random", "n": rng.choice([6, 6, 7, 8, 10, 15, 30, 60, 150, 300]), "style": rng.choice(["linearish", "mergy", "wild"]),
                       "clock": rng.choice(CLOCK_MODES), "seed": "%d/r/%d" % (ctx.seed, i)})
+    for i in range(ctx.budget(48, 640)):
+        cases.append({"kind": "ladder", "count": 100, "seed": "%d/l/%d" % (ctx.seed, i)})
     for i in range(ctx.budget(120, 1500)):
         cases.append({"kind": "git", "n": rng.choice([5, 8, 12, 25, 60]), "style": rng.choice(["linearish", "mergy", "wild"]),
                       "clock": rng.choice(CLOCK_MODES), "commit_graph": rng.choice([None, "git", "dulwich"]),
                       "seed": "%d/g/%d" % (ctx.seed, i)})
     ctx.rule = ("exh: ALL DAGs on n<=4 labelled nodes (parents subset of earlier nodes) x ALL weak orders of timestamps x all "
                 "query pairs/triples/include sets (n=5: all DAGs, %s); random DAGs 6..300 commits with criss-cross/octopus/"
-                "multi-root and 7 clock modes; git: fast-import'ed copies with/without commit-graph. non-trivial = distinct DAG "
+                "multi-root and 7 clock modes; ladder DAGs (chain + shortcut merges, 6-14 commits) x fully permuted/tied/reversed clocks x all pairs; git: fast-import'ed copies with/without commit-graph. non-trivial = distinct DAG "
                 "(exh) or distinct (size, style, clock class, #merges) (random)." % (
                     "all 541 weak orders for pair queries" if ctx.thorough else "10 sampled clocks + 3 extreme ones, pair queries"))
     ctx.explanation = "exhaustive sub-space: n<=4 DAGs x 75 weak orders x full battery" + (
